@@ -32,6 +32,14 @@ pub struct Resend {
     /// frame in front of the genuine acknowledgements (custom authorization, third client)
     #[serde(default)]
     pub peer_acks: Vec<Vec<u8>>,
+    /// one very long server frame (11 s of real time; Bevy's virtual clock advances by at most 250 ms per frame) before
+    /// the change: every clock the acknowledgement bookkeeping reads must be the same one
+    #[serde(default)]
+    pub hitch: bool,
+    /// tick-less server frames (0..3) that pass between the last tick of the hold phase and the arrival of the
+    /// acknowledgements - only as many as keep the acknowledgement of the last message younger than the timeout
+    #[serde(default)]
+    pub ack_delay: u8,
 }
 
 pub fn run_resend(c: &Resend) -> Outcome {
@@ -75,6 +83,13 @@ pub fn run_resend(c: &Resend) -> Outcome {
     let idle_len = idle.first().copied().unwrap_or(0);
     sim.lockstep_round();
 
+    if c.hitch {
+        use bevy::time::TimeUpdateStrategy;
+        sim.server.insert_resource(TimeUpdateStrategy::ManualDuration(std::time::Duration::from_secs(11)));
+        sim.step(&Step::ServerFrame { tick: false });
+        sim.server.insert_resource(TimeUpdateStrategy::ManualDuration(std::time::Duration::from_millis(10)));
+        sim.lockstep_round();
+    }
     // the change
     sim.step(&Step::Mutate { slot: 0, k: K::A });
     let mut held_acks = 0usize;
@@ -106,7 +121,9 @@ pub fn run_resend(c: &Resend) -> Outcome {
         while sim.deliver_c2s(1, 0, 0) {}
     }
     let last_delivered = c.hold.last().copied().unwrap_or(false);
-    let mut strict = c.timeout_ms >= 10_000 && c.junk.is_empty();
+    // The strict clause needs the acknowledgement of the LAST message to be honoured: that message is at most three frames
+    // (30 ms) old when its acknowledgement arrives, so any timeout of 60 ms or more must still know it.
+    let mut strict = c.timeout_ms >= 60 && c.junk.is_empty();
     if c.insert_before_release {
         // a structural change on the same entity: the update message carries its pending mutations, too, and is delivered
         let has_s = sim.slots[0].is_some_and(|e| sim.has_k(e, K::S));
@@ -126,6 +143,15 @@ pub fn run_resend(c: &Resend) -> Outcome {
         sim.step(&Step::JunkAck { client: 2, bytes: j.clone() });
     }
     while peer && sim.deliver_c2s(2, 0, 0) {}
+    if strict {
+        let mut frames = (c.ack_delay % 4) as u64;
+        while (frames + 2) * 10 >= c.timeout_ms {
+            frames -= 1;
+        }
+        for _ in 0..frames {
+            sim.step(&Step::ServerFrame { tick: false });
+        }
+    }
     if strict {
         // "stops being re-sent afterwards": the client has the latest data (last mutate message, or the update message) and
         // every acknowledgement now reaches the server; the very next tick must not carry the mutation again
@@ -183,12 +209,15 @@ pub fn run_resend(c: &Resend) -> Outcome {
     if peer {
         out.classes.push("unauthorized_peer_acks_in_front");
     }
+    if c.hitch {
+        out.classes.push("long_frame_before_the_change");
+    }
     out
 }
 
 fn resend_strategy() -> impl Strategy<Value = Resend> {
     (
-        (any::<bool>(), any::<bool>(), any::<bool>(), prop_oneof![Just(30u64), Just(60), Just(10_000)], 1u8..=5),
+        (any::<bool>(), any::<bool>(), any::<bool>(), prop_oneof![Just(30u64), Just(60), Just(200), Just(500), Just(10_000)], 1u8..=5),
         proptest::collection::vec(any::<bool>(), 1..8),
         0u8..3,
         proptest::collection::vec(crate::sim::generate::junk_ack_bytes(), 0..3),
@@ -196,8 +225,10 @@ fn resend_strategy() -> impl Strategy<Value = Resend> {
         0u8..2,
         any::<bool>(),
         prop_oneof![2 => Just(Vec::new()), 1 => proptest::collection::vec(proptest::collection::vec(any::<u8>(), 0..4), 1..3)],
+        proptest::bool::weighted(0.3),
+        0u8..4,
     )
-        .prop_map(|((sync, track, children, timeout_ms, entities), hold, idle_frames, junk, mutate_again, vis, insert_before_release, peer_acks)| Resend {
+        .prop_map(|((sync, track, children, timeout_ms, entities), hold, idle_frames, junk, mutate_again, vis, insert_before_release, peer_acks, hitch, ack_delay)| Resend {
             sync,
             track,
             children,
@@ -210,6 +241,8 @@ fn resend_strategy() -> impl Strategy<Value = Resend> {
             vis,
             insert_before_release,
             peer_acks,
+            hitch,
+            ack_delay,
         })
 }
 
